@@ -76,6 +76,7 @@ class Ctx:
             ids = set()
             for tok in _re.findall(r"[A-Za-z_][A-Za-z_0-9]*", p if isinstance(p, str) else ""):
                 ids |= by_name.get(tok, set())
+                ids |= by_name.get(getattr(fn, "_renames", {}).get(tok, ""), set())
             for nm in kill_names:
                 ids |= by_name.get(nm, set())
             return ids
@@ -97,6 +98,29 @@ class Ctx:
             mon.label = label
             s = Search(fn, mon)
             v = s.run(0)
+            if v is not None:
+                # renamed-local tolerance for bare-name predicates: a variable the tables name no
+                # longer exists; accept if *some* other local plays its role in this gate
+                from pat import pattern_names, M as _M
+                pats = [p for p, w in pattern] if isinstance(pattern, list) else [pattern]
+                known = _M(fn)._known_names()
+                vanished = sorted({n for p in pats if isinstance(p, str) for n in pattern_names(p)
+                                   if n not in known and n not in getattr(fn, "_renames", {})})
+                if len(vanished) == 1:
+                    cands = sorted({nm for nm in fn._names.values() if not nm.startswith("_")})
+                    for cand in cands:
+                        if cand in getattr(fn, "_renames", {}).values():
+                            continue
+                        saved = dict(getattr(fn, "_renames", {}))
+                        fn._renames = dict(saved, **{vanished[0]: cand})
+                        mon2 = GateMonitor(accept_pts, pattern, want if len(spec) == 3 else None, (), accept_edge=accept_edge, kill_fn=kills_for,
+                                           est_elem=mon.est_elem)
+                        mon2.label = label
+                        s2 = Search(fn, mon2)
+                        if s2.run(0) is None:
+                            v, s = None, s2
+                            break
+                        fn._renames = saved
             key = "%s:%s" % (fn.name, label)
             if v is None:
                 self.ok(rule, key, "every path to %s (%d point(s)) in %s passes `%s` = %s; %d product states" % (
